@@ -27,13 +27,14 @@ PROPERTY = "C19"
 LEVEL = "exploration"
 RULE = (
     "Histories = sequences of 1..4 operations from {fit(D1), fit(D2), predict(seed), pickle, clone} (plus set_params "
-    "re-configuration between fits and prediction on the other dataset) on "
+    "re-configuration between fits, prediction on the other dataset, and fitting a sibling estimator of the same "
+    "configuration on the other dataset) on "
     "ThresholdOptimizer, ExponentiatedGradient, GridSearch, CorrelationRemover and the adversarial "
     "classifier/regressor (warm_start=False, PyTorch), with drawn configurations and two drawn datasets "
     "(for CorrelationRemover also of different width and different DataFrame column layout); all 5^1..5^4 "
     "histories are enumerated for ThresholdOptimizer and CorrelationRemover over fixed dataset pairs. "
-    "Non-trivial: the history contains a refit on different data, a refit after a re-configuration, or a clone/pickle "
-    "after a fit."
+    "Non-trivial: the history contains a refit on different data, a refit after a re-configuration, a sibling fit after "
+    "a fit, or a clone/pickle after a fit."
 )
 ASSUMPTIONS = [
     "the reference model is a freshly constructed estimator with equal parameters fitted once on the last dataset",
@@ -63,7 +64,7 @@ RECONF_VALUES = {
     "adv": {"lr": [0.1, 0.01], "alpha": [0.0, 1.0], "epochs": [1, 2], "batch_size": [-1, 3, 4]},
 }
 OPS = ["fit1", "fit2", "predict", "pickle", "clone"]
-EXTRA_OPS = ["predict_other", "reconfig"]  # sampled histories only: predict / transform on the *other* dataset
+EXTRA_OPS = ["predict_other", "reconfig", "sibling_fit"]  # sampled histories only: predict / transform on the *other* dataset
 
 
 # ---- adapters: build / fit / state / predict per estimator kind ---------------------------------------------
@@ -418,6 +419,21 @@ def check(case):
             if not _same(before, ad.state(est, fitted_on)):
                 raise PropertyViolation(f"{what}: predicting on other data altered the fitted state")
             ad.check_params(est, params0, what)
+        elif op == "sibling_fit":
+            # a second estimator with the same configuration is fitted (on the other dataset) and used: estimators share
+            # no state through the class, the module or a default argument
+            if fitted_on is None:
+                continue
+            before = ad.state(est, fitted_on)
+            pred_before = ad.predict(est, fitted_on, case["seed"])
+            sib = ad.fit(ad.build(), 3 - fitted_on)
+            ad.predict(sib, 3 - fitted_on, case["seed"] + 1)
+            if not _same(before, ad.state(est, fitted_on)):
+                raise PropertyViolation(f"{what}: fitting another estimator of the same configuration on other data altered this one's fitted state: {_diff(before, ad.state(est, fitted_on))}")
+            if not _same(pred_before, ad.predict(est, fitted_on, case["seed"])):
+                raise PropertyViolation(f"{what}: fitting another estimator of the same configuration on other data altered this one's predictions")
+            ad.check_params(est, params0, what)
+            tags.add("sibling_fit")
         elif op == "pickle":
             if not ad.pickles:
                 continue
@@ -448,7 +464,7 @@ def check(case):
         tags.add("adv_refit_other_label_set")
     if case.get("shared_X") and refit_diff:
         tags.add("refit_same_X_object_other_labels")
-    if refit_diff or post_fit_copy or "refit_after_reconfig" in tags:
+    if refit_diff or post_fit_copy or "refit_after_reconfig" in tags or "sibling_fit" in tags:
         tags.add("nt")
     if refit_diff:
         tags.add("refit_other_data")
